@@ -106,6 +106,18 @@ def _pos_axiom(sort, esort, size, is_bag):
     return z3.parse_smt2_string(txt, sorts=sorts, decls={f: size})[0]
 
 
+def _mono_axiom(sort, esort, size, n):
+    """A subset is no larger: either the Skolem witness shows a is not a subset of b, or card(a) <= card(b)."""
+    from . import ty as T
+    so, f = sort.sexpr(), size.name()
+    w = z3.Function(f"subset_witness_{n}", sort, sort, esort)
+    txt = (f"(assert (forall ((a {so}) (b {so})) (! (or (and (select a ({w.name()} a b)) (not (select b ({w.name()} a b)))) (<= ({f} a) ({f} b))) "
+           f":pattern (({f} a) ({f} b)))))")
+    sorts = {x.name(): x for x in (T.TupS, T.MetaS, T.LayerS, T.StrS, T.FieldS, T.ValS)}
+    sorts.update({x.name(): x for x in T._pairs.values()})
+    return z3.parse_smt2_string(txt, sorts=sorts, decls={f: size, w.name(): w})[0]
+
+
 _coll_cache = {}
 
 
@@ -136,6 +148,7 @@ def _collection_axioms(e):
         # SMT-LIB text because z3's Python MultiPattern is unreliable on array-sorted arguments)
         f"card_pos[{n}]": _pos_axiom(st.sort(), e.sort(), card, False),
         f"blen_pos[{n}]": _pos_axiom(bt.sort(), e.sort(), blen, True),
+        f"card_mono[{n}]": _mono_axiom(st.sort(), e.sort(), card, n),
         f"card_ext[{n}]": _ext_axiom(st.sort(), sd, card),
         f"blen_ext[{n}]": _ext_axiom(bt.sort(), bd, blen),
         f"card_nonneg[{n}]": FA([s], card(s) >= 0, card(s)),
